@@ -283,22 +283,25 @@ def run_ext(ctx):
 
     ind = os.path.join(ctx.work, "in-c20net")
     os.makedirs(ind, exist_ok=True)
-    json.dump({"src_n": SRC_N, "scenarios": scenarios, "handshake": handshake, "statesync": statesync}, open(os.path.join(ind, "input.json"), "w"))
+    early = [{"name": "early-headers", "ssi": 4, "mtb": 8, "n": 22, "early": True, "batch": 0, "order": "asc",
+              "peers": [{"kind": "silent"}, {"kind": "honest"}, {"kind": "honest"}]},
+             {"name": "early-mpt", "ssi": 5, "mtb": 12, "n": 23, "early": True, "batch": 0, "order": "desc",
+              "peers": [{"kind": "hdronly"}, {"kind": "honest"}, {"kind": "honest"}]}]
+    json.dump({"src_n": SRC_N, "scenarios": scenarios, "handshake": handshake, "statesync": statesync, "early": early},
+              open(os.path.join(ind, "input.json"), "w"))
 
     # 4. real code
-    try:
-        res = ctx.go_driver("c20net", "TestDriver", env={"VERIF_IN": ind, "VERIF_PAR": 8}, timeout=3000)
-    except vlib.Inconclusive:
-        crash = node_crash(ctx)
-        if crash is None:
-            raise
-        # a Go panic inside the node's own goroutines (no harness frame on the panicking stack), provoked by what peers sent
-        ctx.samples.append({"node_crash": crash["where"]})
-        ctx.violation({"part": PART, "kind": "panic", "where": crash["where"]},
-                      {"what": "the node's process crashed while fake peers were talking to it", "panic": crash["panic"],
-                       "stack": crash["stack"][:30], "being_played": crash["playing"]})
+    res = drive(ctx, "TestDriver", ind)
+    if res is None:
         return
     ctx.absorb(res)
+    # a block command nobody asked for while the node collects headers / trie nodes: its own process (a crash is the verdict)
+    res2 = drive(ctx, "TestEarlyBlock", ind)
+    ok_early = True
+    if res2 is not None:
+        ctx.absorb(res2)
+        ok_early = judge_net(ctx, os.path.join(res2["_out"], "ss.ndjson"), "state-exchange-early-block")
+        ctx.traces_validated += res2.get("traces", 0)
 
     # 5. TLC judges the recorded runs against the abstract level
     ok_net = judge_net(ctx, os.path.join(res["_out"], "trace.ndjson"), "blocks")
@@ -318,9 +321,25 @@ def run_ext(ctx):
         selftest_hs(ctx, os.path.join(res["_out"], "hs.ndjson"))
 
 
-def node_crash(ctx):
+def drive(ctx, test, ind):
+    """Run one driver function; a crash of the node's own goroutines becomes a violation (returns None then)."""
+    try:
+        return ctx.go_driver("c20net", test, env={"VERIF_IN": ind, "VERIF_PAR": 8}, timeout=3000)
+    except vlib.Inconclusive:
+        crash = node_crash(ctx, test)
+        if crash is None:
+            raise
+        # a Go panic inside the node's own goroutines (no harness frame on the panicking stack), provoked by what peers sent
+        ctx.samples.append({"node_crash": crash["where"], "driver": test})
+        ctx.violation({"part": PART, "kind": "panic", "where": crash["where"]},
+                      {"what": "the node's process crashed while fake peers were talking to it (%s)" % test, "panic": crash["panic"],
+                       "stack": crash["stack"][:30], "being_played": crash["playing"]})
+        return None
+
+
+def node_crash(ctx, test="TestDriver"):
     """Parse the driver's log: a panic whose goroutine has no harness frame is the node's own crash."""
-    log = os.path.join(ctx.work, "go-c20net-TestDriver.log")
+    log = os.path.join(ctx.work, "go-c20net-%s.log" % test)
     if not os.path.exists(log):
         return None
     lines = open(log, errors="replace").read().splitlines()
@@ -343,7 +362,7 @@ def node_crash(ctx):
             where = next((re.sub(r"\((0x[0-9a-f]+|\.\.\.|, |\{|\}|\?)*\)$", "", x.strip()) for x in fr if "nspcc-dev/neo-go" in x), fr[0] if fr else "?")
             where = where.replace("github.com/nspcc-dev/neo-go/", "")
             playing = []
-            pf = os.path.join(ctx.work, "out-c20net-TestDriver", "progress.log")
+            pf = os.path.join(ctx.work, "out-c20net-%s" % test, "progress.log")
             if os.path.exists(pf):
                 playing = open(pf).read().splitlines()[-12:]
             return {"panic": ln, "where": where, "stack": blk, "playing": playing}
